@@ -132,9 +132,16 @@ Inductive case :=
 | CaseFailover (p : N) (rd : bool) (fbs : list N) (asked : list Z) (rc1 : N) (ede1 : option N) (flen : Z)
                (calls2 asked2 : Z) (rc2 : N) (ede2 : option N)
   (* lab: a zone of the given depth (dns.CountLabel) whose authority addresses behave as listed
-     (0,1 healthy; 2 REFUSED, 3 SERVFAIL, 4 NOTIMP, 6 NOTAUTH; 5 silent; 7 NXDOMAIN); zone failures
+     (0,1 healthy; 2 REFUSED, 3 SERVFAIL, 4 NOTIMP, 6 NOTAUTH; 5 silent; 7 NXDOMAIN; 8 a referral
+     that does not progress below the zone — gated cases only); zone failures
      published / cleared by Resolver.Resolve, its rcode (999 = error) *)
 | CaseLab (level : N) (servers : list N) (records clears : Z) (rcode : N)
+  (* lab, gated authorities: the servers in the order lookup started them (codes as above; 5 = a
+     reply that is a read error), the observed schedule — (servers started, server whose reply was
+     released) at each barrier up to the return of Resolve —, whether the driver then cancelled the
+     client's context (at a barrier, Resolve not yet back), zone failures published / cleared, rcode
+     (999 = error, 998 = Resolve did not return) *)
+| CaseLabSched (level : N) (servers : list N) (evs : list (nat * nat)) (cancelled : bool) (records clears : Z) (rcode : N)
   (* lab: one query while the resolver is at capacity (error class e), the same query
      again once the load is gone: rcode, EDE, authority packets of each *)
 | CaseShed (e : rerr) (rc1 : N) (ede1 : option N) (up1 : Z) (rc2 : N) (ede2 : option N) (up2 : Z)
@@ -357,7 +364,8 @@ Fixpoint cohort_obs_ok (groups : list (cmember * list cmember)) (out : list (can
 (* ---- lab: the fan-out model under a family of schedules *)
 Definition lab_srv (b : N) : srv :=
   if (b <=? 1)%N then SHealthy else if (b =? 2)%N then SRcode 5 else if (b =? 3)%N then SRcode 2
-  else if (b =? 4)%N then SRcode 4 else if (b =? 5)%N then SSilent else if (b =? 6)%N then SRcode 9 else SRcode 3.
+  else if (b =? 4)%N then SRcode 4 else if (b =? 5)%N then SSilent else if (b =? 6)%N then SRcode 9
+  else if (b =? 8)%N then SBogusReferral else SRcode 3.
 (* schedules tried: every result in list order with no timer tick (each consumed failure starts the
    next server); and, with every server started by timer ticks: each server heard first, each
    server heard last, and "the lame ones, then the NXDOMAIN ones, then the healthy ones" *)
@@ -372,13 +380,29 @@ Definition lab_schedules (sv : list srv) : list (list fo_event) :=
   (timers ++ map FoResult (pick (fun s => negb (is_nx s) && negb (is_ok s)) ++ pick is_nx ++ pick is_ok)) ::
   map (fun i => timers ++ FoResult i :: map FoResult all) all ++
   map (fun i => timers ++ map FoResult (filter (fun j => negb (j =? i)%nat) all) ++ [FoResult i]) all.
-Definition lab_obs_ok (o : fo_out) (records : Z) (rcode : N) : bool :=
+Definition lab_obs_ok (o : fo_out) (records clears : Z) (rcode : N) : bool :=
+  (clears =? (if fo_cleared o then 1 else 0)) &&
   match o with
   | FOAnswer _ => (records =? 0) && (rcode =? 0)%N
   | FOResponse rc =>
       if fo_published o then (1 <=? records) && negb (rcode =? 0)%N && negb (rcode =? 3)%N
       else (records =? 0) && (rcode =? rc)%N
   | FOConnFailed => (1 <=? records) && negb (rcode =? 0)%N && negb (rcode =? 3)%N
+  | _ => false
+  end.
+
+(* under an observed schedule the outcome is exact: the answer; the FIRST response error (NXDOMAIN
+   before any other), published once iff it is of the server-failure class; the connection-failed
+   error, published once *)
+Definition sched_obs_ok (o : fo_out) (records clears : Z) (rcode : N) : bool :=
+  (clears =? (if fo_cleared o then 1 else 0)) &&
+  match o with
+  | FOAnswer _ => (records =? 0) && (rcode =? 0)%N
+  | FOResponse rc => (rcode =? rc)%N && (records =? (if fo_published o then 1 else 0))
+  | FOConnFailed => (records =? 1) && (rcode =? 999)%N
+  (* the bogus delegation is handed to resolve, whose processDelegation rejects it once more: an
+     error, nothing published *)
+  | FOConfig => (records =? 0) && (rcode =? 999)%N
   | _ => false
   end.
 
@@ -463,9 +487,22 @@ Definition check_case (x : case) : bool :=
       (* what was observed is what the fan-out model yields under one of the schedules *)
       let sv := map lab_srv servers in
       existsb (fun sched => match fo_done (fo_run sv (N.to_nat level) sched) with
-                            | Some o => lab_obs_ok o records rcode
+                            | Some o => lab_obs_ok o records clears rcode
                             | None => false
                             end) (lab_schedules sv)
+  | CaseLabSched level servers evs cancelled records clears rcode =>
+      (* the fan-out model under the observed schedule: it has not ended before the last release,
+         it ends with it, and in what was observed; a lookup the client abandoned was still
+         running, ends in an error and publishes nothing (ctx.Done() in lookup, the
+         EffectiveError filter of recordResolutionZoneFailure) *)
+      let sv := map lab_srv servers in
+      match fo_observed sv (N.to_nat level) (fo_init (length sv)) evs with
+      | Some st => match fo_done st with
+                   | Some o => negb cancelled && sched_obs_ok o records clears rcode
+                   | None => cancelled && (records =? 0) && (clears =? 0) && (rcode =? 999)%N
+                   end
+      | None => false
+      end
   | CaseShed e rc1 ede1 up1 rc2 ede2 up2 =>
       (* shed before any packet leaves; the SERVFAIL is recorded unless the handler marks it *)
       (rc1 =? rcode_servfail)%N && (up1 =? 0) &&
@@ -848,7 +885,20 @@ Definition spec_case (x : case) : bool :=
   | CaseLab level servers records clears rcode =>
       (* a zone failure only for a zone every one of whose servers failed to give a usable response
          (an answer or NXDOMAIN are usable; a failure rcode, silence are not) *)
-      if (0 <? records) then forallb (fun b => (2 <=? b)%N && negb (b =? 7)%N) servers else true
+      (if (0 <? records) then forallb (fun b => (2 <=? b)%N && negb (b =? 7)%N) servers else true) &&
+      (if (0 <? clears) then existsb (fun b => (b <=? 1)%N || (b =? 7)%N) servers && (records =? 0) else true) &&
+      (if (rcode =? 0)%N then (1 <=? clears) else true)
+  | CaseLabSched level servers evs cancelled records clears rcode =>
+      (* a zone failure only when every server of the zone was heard and none gave a usable
+         response; never more than one per lookup; Resolve returned; a lookup the client
+         cancelled publishes nothing; the zone's failure state is cleared only when a server gave
+         a usable response, and never by a lookup that publishes a failure *)
+      negb (rcode =? 998)%N && (records <=? 1) && (if cancelled then (records =? 0) else true) &&
+      (if (0 <? clears) then existsb (fun b => (b <=? 1)%N || (b =? 7)%N) servers && (records =? 0) else true) &&
+      (* a useful answer resets the zone's failure state *)
+      (if (rcode =? 0)%N then (1 <=? clears) else true) &&
+      (if (0 <? records) then forallb (fun b => (2 <=? b)%N && negb (b =? 7)%N) servers && fo_all_heard (length servers) evs
+       else true)
   | CaseShed e rc1 ede1 up1 rc2 ede2 up2 =>
       (* shed load never becomes shared state: the next query is not answered from the failure cache *)
       if shed_load e then negb (opt_N_eqb ede2 (Some ede_cached_error)) && (1 <=? up2) else true
